@@ -574,7 +574,7 @@ impl Locale {
                 let map = possible_plurals.entry(base_key.clone()).or_default();
                 if map.insert(plural_form, (key, rule_type, value)).is_some() {
                     // same base key and same form: one is cardinal and the other ordinal
-                    let key = Key::new(&base_key).unwrap_at("merge_plurals_2");
+                    let key = Key::try_new(&base_key)?;
                     key_path.push_key(key);
                     return Err(Error::ConflictingPluralRuleType {
                         locale: locale.clone(),
